@@ -26,7 +26,8 @@ type c08Step struct {
 	NewETag bool      `json:"new_etag,omitempty"`
 	Expires bool      `json:"expires,omitempty"`
 	VaryChg bool      `json:"vary_change,omitempty"`
-	NoDate  bool      `json:"no_date,omitempty"` // the validation reply carries no Date (origin without a clock)
+	NoDate  bool      `json:"no_date,omitempty"`  // the validation reply carries no Date (origin without a clock)
+	TwoLine bool      `json:"two_line,omitempty"` // the 304 sends Cache-Control and X-New on two field lines each
 	Follow  []float64 `json:"follow_s"`
 }
 
@@ -67,6 +68,7 @@ func genC08(r *rand.Rand) c08Case {
 		s.NewETag = chance(r, 0.3) && c.Validators != "lm"
 		s.Expires = chance(r, 0.2)
 		s.VaryChg = s.Kind == "200" && c.Vary && chance(r, 0.2)
+		s.TwoLine = s.Kind == "304" && (i+n+int(s.NewL))%3 == 0 // (derived: the case list of earlier versions is unchanged)
 		s.Follow = nil
 		for _, f := range []float64{0, 1, 0.5, -2} {
 			if chance(r, 0.6) {
@@ -154,6 +156,9 @@ func c08Run(r *run.Runner, c c08Case) {
 					cc += ", stale-while-revalidate=" + itoa(c.SWR)
 				}
 				rs.CC = []string{cc}
+				if st.TwoLine {
+					rs.CC = []string{cc, "private"} // the lifetime is on the first of two field lines
+				}
 			}
 			if st.NewETag {
 				etagGen++
@@ -164,6 +169,9 @@ func c08Run(r *run.Runner, c c08Case) {
 			rs.Extra = map[string][]string{}
 			if st.XNew {
 				rs.Extra["X-New"] = []string{fmt.Sprintf("s%d", stepIdx)}
+				if st.TwoLine {
+					rs.Extra["X-New"] = []string{fmt.Sprintf("s%d", stepIdx), "second-line"}
+				}
 			}
 			if st.Age != "" {
 				rs.Age = []string{st.Age}
@@ -348,6 +356,8 @@ func c08Run(r *run.Runner, c c08Case) {
 				}
 				if st.XNew && fu.Header.Get("X-New") != fmt.Sprintf("s%d", si) {
 					r.Violation("header-not-updated", sig+",x-new", fmt.Sprintf("field introduced by the validation reply missing: X-New=%q; %s", fu.Header.Get("X-New"), fu.Summary()), obsOf())
+				} else if st.XNew && st.TwoLine && st.Kind == "304" && len(fu.Header.Values("X-New")) != 2 {
+					r.Violation("header-not-updated", sig+",x-new-lines", fmt.Sprintf("the 304 sent X-New on two field lines, the stored response has %q; %s", fu.Header.Values("X-New"), fu.Summary()), obsOf())
 				}
 				if cl := fu.Header.Get("Content-Length"); cl != "" && cl != strconv.Itoa(len(fu.Body)) {
 					r.Violation("content-length-from-304", sig, fmt.Sprintf("Content-Length %q but the body has %d bytes; %s", cl, len(fu.Body), fu.Summary()), obsOf())
